@@ -56,35 +56,54 @@ Definition enc_state (s : state) : list nat :=
 
 Definition key := list nat.
 Definition keq : key -> key -> bool := list_eqb Nat.eqb.
-Definition kmem (k : key) (l : list (key * state)) := existsb (fun p => keq k (fst p)) l.
 
 (* ---- exploration ---------------------------------------------------------------------- *)
+(* visited set: a trie over the encoded states *)
+Inductive trie := Node (present : bool) (children : list (nat * trie)).
+Definition tempty := Node false [].
+(* [tadd k t] = (was k already present, t with k) *)
+Fixpoint tadd (k : key) (t : trie) : bool * trie :=
+  match t with
+  | Node p ch =>
+    match k with
+    | [] => (p, Node true ch)
+    | x :: r =>
+      let fix go (l : list (nat * trie)) : bool * list (nat * trie) :=
+        match l with
+        | [] => (false, [(x, snd (tadd r tempty))])
+        | (y, c) :: l' =>
+          if x =? y then let '(f, c') := tadd r c in (f, (y, c') :: l')
+          else let '(f, l'') := go l' in (f, (y, c) :: l'')
+        end in
+      let '(f, ch') := go ch in (f, Node p ch')
+    end
+  end.
+
 Definition tau_succs (s : state) : list state :=
   flat_map (fun t => match stepL s t CNone with Some (s', None) => [s'] | _ => [] end)
            (seq 0 (length (s_thr s))).
 
-Definition add_new (acc : list state * list (key * state)) (x : state) :=
-  let k := enc_state x in
-  if kmem k (snd acc) then acc else (x :: fst acc, (k, x) :: snd acc).
+(* accumulator: work list, visited set, visited states *)
+Definition add_new (acc : list state * trie * list state) (x : state) :=
+  let '(todo, seen, all) := acc in
+  let '(found, seen') := tadd (enc_state x) seen in
+  if found then acc else (x :: todo, seen', x :: all).
 
 (* all states reachable by internal steps; [fuel] bounds the number of expansions *)
-Fixpoint closure (fuel : nat) (todo : list state) (seen : list (key * state)) : option (list (key * state)) :=
+Fixpoint closure (fuel : nat) (todo : list state) (seen : trie) (all : list state) : option (list state) :=
   match todo with
-  | [] => Some seen
+  | [] => Some all
   | s :: rest =>
     match fuel with
     | 0 => None
-    | S f => let '(todo', seen') := fold_left add_new (tau_succs s) (rest, seen) in closure f todo' seen'
+    | S f => let '(todo', seen', all') := fold_left add_new (tau_succs s) (rest, seen, all) in
+             closure f todo' seen' all'
     end
   end.
 
-Definition dedup (l : list state) : list state := fst (fold_left add_new l ([], [])).
 Definition close_set (fuel : nat) (l : list state) : option (list state) :=
-  let l' := dedup l in
-  match closure fuel l' (map (fun s => (enc_state s, s)) l') with
-  | Some seen => Some (map snd seen)
-  | None => None
-  end.
+  let '(todo, seen, all) := fold_left add_new l ([], tempty, []) in
+  closure fuel todo seen all.
 
 Definition ev_tid_choice (e : vev) : nat * choice :=
   match e with
